@@ -149,6 +149,8 @@ class Engine:
         g.moving_alloc = rng.random() < 0.3          # an allocator that moves every block it grows
         # flatcc's default (paged) emitter instead of the recording one: finished bytes only, no emit stream
         g.default_emitter = (not g.moving_alloc) and not g.gen_api and rng.random() < 0.15
+        # an abandoned build (tables left open with fields added) and flatcc_builder_reset in front of the script: the model starts fresh
+        if rng.random() < 0.2: g.abandon = bu.abandon_ops(rng)
         g.corder = self.corder.get(s.name)
         g.thash = self.thash.get(s.name)
         g.embed_min_depth = embed_min_depth
@@ -408,7 +410,7 @@ class Engine:
             elif f[0] == 'Ti': adds.append('i/%s/%s/%s/%s' % (f[2], f[3], f[4], f[5]))
             elif f[0] == 'To': adds.append('o/%s/%s' % (f[1], f[2]))
             elif f[0] == 'Te': out.append('T:' + ';'.join(adds)); adds = None
-            elif f[0] in ('B', 'C') and f[1] == '-': out.append(':'.join([f[0], '0'] + f[2:]))
+            elif f[0] in ('B', 'C'): out.append(':'.join([f[0], '0' if f[1] == '-' else str(int.from_bytes(bytes.fromhex(f[1]).ljust(4, b'\0')[:4], 'little'))] + f[2:]))
             elif f[0] == 'X' and f[3] == '-': out.append(':'.join(f[:3] + ['0']))
             else: out.append(t)
         return ' '.join(out)
@@ -661,6 +663,80 @@ class Engine:
         for k, L in enumerate(reversed(levels)):
             ops += ['Ts:%d' % (hi + 1)] + adds_before(L) + (['To:%d:%d' % (cid, k - 1)] if k else []) + adds_after(L) + ['Te']
         return ops
+
+    # ------------------------------------------------------------------ push / pop_buffer_alignment around create_buffer(is_nested)
+    def push_pop_alignment(self, rng, count):
+        """The documented low-level path for nested STRUCT roots without start_buffer: push_buffer_alignment, create_struct,
+        create_buffer(.., align, is_nested), pop_buffer_alignment - alignments 8..256, above and below what the parent has seen so far, one
+        or two nested buffers per parent, the parent at top level or itself a nested buffer. The model has no push / pop operation: it runs
+        the same script without the two calls (set_min_align only ever raises min_align, so the bracket must not change bytes or the reported
+        alignment). On the implementation's bytes: the parent reports at least the nested alignment, the nested data starts at a multiple of
+        it, and the independent decoder (synthetic schema with nested struct fields, start aligned to the REPORTED alignment only) returns the values."""
+        ctx = self.ctx
+        recs = []
+        for i in range(count):
+            cl, ws = rng.choice([0, 1]), rng.choice([0, 2])
+            nn = rng.choice([1, 1, 2])
+            als = [rng.choice([8, 16, 32, 64, 128, 256]) for _ in range(nn)]
+            inner = i % 3 == 2                       # the parent is itself a nested buffer (start_buffer .. end_buffer) of a top-level table
+            ops = ['X:%d:0:-' % cl, 'B:-:0:%d' % ws]
+            if inner: ops.append('B:-:0:0')
+            seen = rng.choice([0, 0, 8])             # something the parent has seen before the bracket
+            reg, fields, vals = 0, [], []
+            if seen:
+                v = bytes(rng.randrange(256) for _ in range(8)); ops.append('V:c:8:8:536870911:1:' + v.hex()); sreg = reg; reg += 1
+            nregs = []
+            for al in als:
+                size = al * rng.choice([1, 1, 2]) if al <= 64 else al
+                data = bytes(rng.randrange(1, 256) for _ in range(size))
+                ident = rng.choice(['-', '4e535452'])
+                ops += ['P', 'R:c:%d:%s' % (al, data.hex()), 'C:%s:0:%d:%d:1' % (ident, reg, al), 'Q']
+                nregs.append(reg + 1); reg += 2
+                fields.append('ns:%d:%d' % (size, al)); vals.append('n(b%s)' % data.hex())
+            tail = rng.randrange(1 << 32).to_bytes(4, 'little')
+            ops.append('Ts:%d' % (nn + 2))
+            for k, r in enumerate(nregs): ops.append('To:%d:%d' % (k, r))
+            ops.append('Ti:a:%d:4:4:%s' % (nn, tail.hex()))
+            if seen: ops.append('To:%d:%d' % (nn + 1, sreg))
+            ops.append('Te'); troot = reg; reg += 1
+            ops.append('E:%d' % troot); reg += 1
+            tdesc = ';'.join(['%d,0,%s' % (k, f) for k, f in enumerate(fields)] + ['%d,0,s:4:4' % nn] + (['%d,0,v:8:8:536870911' % (nn + 1)] if seen else []))
+            texp = 't{' + ';'.join(['%d=%s' % (k, v) for k, v in enumerate(vals)] + ['%d=b%s' % (nn, tail.hex())] + (['%d=v[%s]' % (nn + 1, v.hex())] if seen else [])) + '}'
+            if inner:
+                ops += ['Ts:1', 'To:0:%d' % (reg - 1), 'Te', 'E:%d' % reg]
+                desc, root, exp = tdesc + '|0,0,nt:4:0#-', 1, 't{0=n(%s)}' % texp
+            else:
+                desc, root, exp = tdesc + '#-', 0, texp
+            ops = ' '.join(ops)
+            recs.append({'h': 'build ' + ops, 'm': 'run ' + self._model_ops(' '.join(t for t in ops.split() if t not in ('P', 'Q'))), 'desc': desc, 'root': root, 'exp': exp,
+                         'ws': 1 if ws else 0, 'als': als, 'inner': inner})
+        hres = lib.run_harness_resilient(self.H, [r['h'] for r in recs])
+        mres = ctx.run_model('builder', [r['m'] for r in recs])
+        dl, dm = [], []
+        for r, hr, mr in zip(recs, hres, mres):
+            ctx.count(r['h'], klass='build:push-pop-buffer-alignment')
+            r['hr'], r['mr'], r['hi'] = hr, mr, parse_reply(hr)
+            if r['hi'] is not None:
+                r['dec'] = 'dec %s t:%d %d 5 %d %s' % (r['desc'], r['root'], r['ws'], r['hi']['align'], r['hi']['raw'].hex())
+                dl.append(r['dec']); dm.append(r)
+        for r, d in zip(dm, ctx.run_model('builder', dl) if dl else []): r['d'] = d
+        for r in recs:
+            base = {'harness_line': r['h'], 'model_line': r['m'], 'impl': r['hr'][:1500], 'model': r['mr'][:1500]}
+            what = 'nested struct root(s) aligned %s built with push_buffer_alignment / create_struct / create_buffer(is_nested) / pop_buffer_alignment%s' % (
+                ', '.join(map(str, r['als'])), ' inside a nested parent' if r['inner'] else '')
+            if r['hr'].startswith('CRASH'):
+                ctx.violation('crash:' + self.crash_key(r['hr']), 'the builder crashes (sanitizer) on %s: %s' % (what, r['hr'][:300]), base)
+            elif r['hi'] is None:
+                ctx.violation('build-failed:push-pop-buffer-alignment', 'a builder call fails on %s: %s' % (what, r['hr'][:200]), base)
+            elif r['hi']['align'] % max(r['als']):
+                ctx.violation('parent-alignment-too-small:push-pop', '%s: the finished parent reports alignment %d, its nested content needs %d' % (what, r['hi']['align'], max(r['als'])),
+                              dict(base, dec_line=r['dec']))
+            elif r.get('d') != r['exp']:
+                ctx.violation('nested-misaligned:push-pop', '%s: placed at a start aligned to the reported alignment %d only, the buffer does not decode to what was built (independent decoder: %s)'
+                              % (what, r['hi']['align'], r.get('d', '')[:60]), dict(base, dec_line=r['dec'], expected=r['exp'][:300]))
+            elif r['hr'] != r['mr']:
+                ctx.violation('corr:build:push-pop-buffer-alignment', 'the push / pop bracket changes what is built: model (same script without the two calls) and implementation disagree on %s' % what, base)
+        return len(recs)
 
     # ------------------------------------------------------------------ classification helpers
     @staticmethod
